@@ -513,6 +513,16 @@ impl<E: El, I: Item<E>> Chain<E, I> {
         }
         let nsegs = self.segs.len();
         let top_kind = self.stages.last().unwrap().kind;
+        for st_k in &self.stages {
+            if st_k.ctl.polled_after_end() {
+                return Err(viol(
+                    st_k.kind.prop(),
+                    cx.step,
+                    format!("limit-stream-polled-after-end/{}", st_k.kind.name()),
+                    "the adapter polled its limit/count stream again after that stream had returned Ready(None); a stream that is not fused may panic or block then".to_string(),
+                ));
+            }
+        }
         if let Poll::Ready(_) = &r {
             if let Some(f) = self.last_pending.take() {
                 if !f.woken() {
